@@ -209,7 +209,13 @@ func (p *IdP) UserGroups(email string) []string {
 	p.mu.Lock()
 	defer p.mu.Unlock()
 	if u := p.Users[email]; u != nil {
-		return append([]string{}, u.Groups...)
+		out := []string{}
+		for _, g := range u.Groups {
+			if !p.DeletedGroups[g] {
+				out = append(out, g)
+			}
+		}
+		return out
 	}
 	return nil
 }
@@ -467,6 +473,51 @@ func (p *IdP) snapshotGroups() {
 	}
 }
 
+// LastChange returns when the group's member list last changed (zero if never seen).
+func (p *IdP) LastChange(group string) time.Time {
+	p.mu.Lock()
+	defer p.mu.Unlock()
+	hs := p.DirHistory[group]
+	last := time.Time{}
+	for i, h := range hs {
+		if i == 0 || !sameMembers(hs[i-1], h) {
+			last = h.At
+		}
+	}
+	return last
+}
+
+func sameMembers(a, b DirectoryVersion) bool {
+	if a.Exists != b.Exists || len(a.Members) != len(b.Members) {
+		return false
+	}
+	for k := range a.Members {
+		if !b.Members[k] {
+			return false
+		}
+	}
+	return true
+}
+
+// MemberNow is current ground truth.
+func (p *IdP) MemberNow(group, email string) bool {
+	p.mu.Lock()
+	defer p.mu.Unlock()
+	if p.DeletedGroups[group] {
+		return false
+	}
+	u := p.Users[email]
+	if u == nil || u.Disabled {
+		return false
+	}
+	for _, g := range u.Groups {
+		if g == group {
+			return true
+		}
+	}
+	return false
+}
+
 // MemberAtSomeTime reports whether some historical version of the group's list agrees with the claim.
 func (p *IdP) MemberAtSomeTime(group, email string, claim bool) bool {
 	p.mu.Lock()
@@ -609,7 +660,13 @@ func (p *IdP) userinfo(rw http.ResponseWriter, req *http.Request) {
 		return
 	}
 	u := p.Users[p.access[tok].email]
-	writeJSON(rw, 200, map[string]interface{}{"sub": u.Email, "email": u.Email, "email_verified": u.Verified, "groups": u.Groups})
+	live := []string{} // a deleted group is in nobody's list
+	for _, g := range u.Groups {
+		if !p.DeletedGroups[g] {
+			live = append(live, g)
+		}
+	}
+	writeJSON(rw, 200, map[string]interface{}{"sub": u.Email, "email": u.Email, "email_verified": u.Verified, "groups": live})
 }
 
 func (p *IdP) introspect(rw http.ResponseWriter, req *http.Request) {
